@@ -637,6 +637,11 @@ func runC11(c *Ctx) {
 			call := asCall(v)
 			return call != nil && calleeName(&call.Call) == "(*rt/client.request).isMultipart"
 		}, false)
+		// (the test spelled out where isMultipart was inlined: `len(r.fileFields) > 0 || mediaType == multipart/form-data` is
+		// false only past the edge "the media type is not multipart/form-data")
+		if len(callsIn(f, "(*rt/client.request).isMultipart")) == 0 {
+			notMultipart = factEqString(vOrigins(oIsValue(paramOf(f, 0))), "multipart/form-data", false)
+		}
 		nForm := 0
 		for _, ci := range callsIn(f, "(*bytes.Buffer).WriteString", "(*bytes.Buffer).Write", "io.WriteString") {
 			if ci.Parent() != f {
